@@ -291,7 +291,10 @@ class ExcelCompiler:
 
         # populate the ranges and dependant graph
         for address, lineno in range_todos:
-            excel_compiler._make_cells(address)
+            if address.address not in excel_compiler.cell_map:
+                # (a reference to a whole column builds the range it is
+                #  clipped to, which is listed as well if it has a formula)
+                excel_compiler._make_cells(address)
             add_line_numbers(address.address, lineno)
 
         excel_compiler._process_gen_graph()
